@@ -59,6 +59,9 @@ pub struct Case {
     /// companion: the vote table on its own (hook VIpVote) with hundreds of voters; the service is not run
     #[serde(default)]
     pub table: Option<VoteTable>,
+    /// the local record advertises no socket when the node starts (the first address is voted in)
+    #[serde(default)]
+    pub start_bare: bool,
 }
 
 /// Vote history for the vote table alone: blocks of voters naming a candidate, the majority is queried
@@ -159,11 +162,15 @@ async fn run(case: &Case, rep: &mut CaseReport) -> Option<(String, String)> {
         ping_interval: Some(Duration::from_secs(10)),
         local_record_size: if case.tight_record { Some(300) } else { None },
         local_port4: if case.tight_record { Some(80) } else { None },
+        local_no_socket: case.start_bare && !case.tight_record,
         ..Default::default()
     })
     .await;
     if case.tight_record {
         rep.class(format!("local-record-of-{}-bytes", s.d.local_enr().size()));
+    }
+    if case.start_bare && !case.tight_record {
+        rep.class("local-record-starts-without-a-socket");
     }
     let all_eligible = case.first_incoming as usize >= nv;
     // voters become table members
@@ -457,8 +464,8 @@ impl Property for C17 {
             1 => (0u8..4).prop_map(|cand| Step::ManualUpdate { cand }),
             2 => (0u8..24).prop_map(|voter| Step::Move { voter }),
         ];
-        let free = (any::<bool>(), 2u8..=7, prop_oneof![2 => 3u8..=14, 1 => 12u8..=24], prop_oneof![3 => Just(99u8), 1 => 0u8..14], 2u8..=4, proptest::collection::vec(step, 1..70), prop_oneof![12 => Just(false), 1 => Just(true)])
-            .prop_map(|(dual, min, n_voters, first_incoming, n_cands, steps, tight_record)| Case { dual, min, n_voters, first_incoming, n_cands, steps, expiry: false, tight_record, table: None });
+        let free = (any::<bool>(), 2u8..=7, prop_oneof![2 => 3u8..=14, 1 => 12u8..=24], prop_oneof![3 => Just(99u8), 1 => 0u8..14], 2u8..=4, proptest::collection::vec(step, 1..70), prop_oneof![12 => Just(false), 1 => Just(true)], prop_oneof![4 => Just(false), 1 => Just(true)])
+            .prop_map(|(dual, min, n_voters, first_incoming, n_cands, steps, tight_record, start_bare)| Case { dual, min, n_voters, first_incoming, n_cands, steps, expiry: false, tight_record, table: None, start_bare });
         // expiry regime: some voters name an address, real time passes until those votes have
         // expired, then further voters name it (and the early ones may vote again in a new ping round)
         let estep = prop_oneof![
@@ -474,7 +481,7 @@ impl Property for C17 {
                 steps.push(Step::Pong { voter: v, cand: 0 });
             }
             steps.extend(tail);
-            Case { dual, min, n_voters: 8, first_incoming: 99, n_cands: 2, steps, expiry: true, tight_record: false, table: None }
+            Case { dual, min, n_voters: 8, first_incoming: 99, n_cands: 2, steps, expiry: true, tight_record: false, table: None, start_bare: false }
         });
         // dual stack: the peers that named an IPv6 address let that vote expire and vote on the IPv4
         // address in a later round; then one further peer names the IPv6 address
@@ -490,7 +497,7 @@ impl Property for C17 {
             steps.push(Step::Nap);
             steps.push(Step::Pong { voter: min - 1, cand: 1 });
             steps.extend(tail);
-            Case { dual: true, min, n_voters: 8, first_incoming: 99, n_cands: 2, steps, expiry: true, tight_record: false, table: None }
+            Case { dual: true, min, n_voters: 8, first_incoming: 99, n_cands: 2, steps, expiry: true, tight_record: false, table: None, start_bare: false }
         });
         let block = (prop_oneof![3 => Just(0u16), 2 => 0u16..700], prop_oneof![3 => 1u16..40, 3 => 40u16..300, 2 => 200u16..700], prop_oneof![4 => Just(0u8), 4 => Just(2u8), 1 => 0u8..6]);
         let table = (2u8..=12, proptest::collection::vec(block, 1..8)).prop_map(|(min, mut blocks)| {
@@ -502,7 +509,7 @@ impl Property for C17 {
                 }
                 next = next.max(b.0.saturating_add(b.1));
             }
-            Case { dual: true, min, n_voters: 2, first_incoming: 99, n_cands: 2, steps: vec![], expiry: false, tight_record: false, table: Some(VoteTable { min, blocks }) }
+            Case { dual: true, min, n_voters: 2, first_incoming: 99, n_cands: 2, steps: vec![], expiry: false, tight_record: false, table: Some(VoteTable { min, blocks }), start_bare: false }
         });
         prop_oneof![80 => free, 2 => expiry, 1 => expiry_dual, 6 => table].boxed()
     }
@@ -519,7 +526,7 @@ impl Property for C17 {
         rep
     }
     fn rule() -> String {
-        "a real service with a scripted handler (IPv4 or dual stack, enr_peer_update_min 2..6, vote duration 10 min, ping interval 10 s virtual, connectivity timer off); 3..24 voters become table members through Established (outgoing; in a quarter of the cases some are incoming); the service's own PINGs are answered per script with PONGs naming one of 2..4 candidate addresses (IPv6 candidates in dual stack), voters change their vote in later ping rounds, voters move (a new session with a newer record at another socket, later PONGs come from there; still one peer, one vote), some PINGs fail or stay unanswered; now and then the application sets the record's socket itself (update_local_enr_socket) to one of the candidates, after which the votes may move it back. Ledger: latest vote per voter. Whenever the UDP socket of local_enr() changes between two steps: the step's input was a PONG; the new address has >= minimum current votes from distinct voters; (all voters eligible) it is the unique maximum and every rival has fewer than 70% of its votes; seq increased, the signature verifies, and Event::SocketUpdated(address) was emitted in that step; an address named by fewer than the minimum number of peers is never taken. Expiry regime (one case in 41): vote duration 80 ms of real time, some voters name an address, a measured real idle period of more than 1.3 x the vote duration follows, then further voters name it; an update then needs at least the minimum number of peers whose naming is not certainly expired. One case in 15 is a companion on the vote table alone (hook VIpVote around service::ip_vote::IpVote, vote duration 1 h): up to 8 blocks of 1..700 voters (voter ids 0..1400, fresh voters and voters changing their vote) name one of 6 addresses of both families, minimum 2..12; after every block the majority of each family is read and, if there is one, must have >= minimum current votes, be the unique maximum and lead every rival by the exact 70% rule - with hundreds of voters, which no routing table holds. Non-trivial = two candidates with >= 2 votes each, a voter changing its vote, or an update; companion: a majority was named among >= 30 voters.".into()
+        "a real service with a scripted handler (IPv4 or dual stack, enr_peer_update_min 2..6, vote duration 10 min, ping interval 10 s virtual, connectivity timer off; in a fifth of the cases the local record starts without any socket, so that the first address of each family is voted in); 3..24 voters become table members through Established (outgoing; in a quarter of the cases some are incoming); the service's own PINGs are answered per script with PONGs naming one of 2..4 candidate addresses (IPv6 candidates in dual stack), voters change their vote in later ping rounds, voters move (a new session with a newer record at another socket, later PONGs come from there; still one peer, one vote), some PINGs fail or stay unanswered; now and then the application sets the record's socket itself (update_local_enr_socket) to one of the candidates, after which the votes may move it back. Ledger: latest vote per voter. Whenever the UDP socket of local_enr() changes between two steps: the step's input was a PONG; the new address has >= minimum current votes from distinct voters; (all voters eligible) it is the unique maximum and every rival has fewer than 70% of its votes; seq increased, the signature verifies, and Event::SocketUpdated(address) was emitted in that step; an address named by fewer than the minimum number of peers is never taken. Expiry regime (one case in 41): vote duration 80 ms of real time, some voters name an address, a measured real idle period of more than 1.3 x the vote duration follows, then further voters name it; an update then needs at least the minimum number of peers whose naming is not certainly expired. One case in 15 is a companion on the vote table alone (hook VIpVote around service::ip_vote::IpVote, vote duration 1 h): up to 8 blocks of 1..700 voters (voter ids 0..1400, fresh voters and voters changing their vote) name one of 6 addresses of both families, minimum 2..12; after every block the majority of each family is read and, if there is one, must have >= minimum current votes, be the unique maximum and lead every rival by the exact 70% rule - with hundreds of voters, which no routing table holds. Non-trivial = two candidates with >= 2 votes each, a voter changing its vote, or an update; companion: a majority was named among >= 30 voters.".into()
     }
     fn assumptions() -> Vec<String> {
         vec![
